@@ -26,12 +26,31 @@ enum E2 : uint8 { A = 1; B = 2; }
 [flags]
 enum E3 { A = 1; B = 2; C = A | B; }
 enum E4 : int64 { A = -1; B = 2; }
-struct S1 { int32 a; string b; TB tb; }
+struct S1 {
+	//[tag(json:"a")]
+	//[tag(json:"a2,omitempty")]
+	//[tag(db:"col_a")]
+	//[tag(yaml:"a")]
+	int32 a;
+	//[tag(json:"b")]
+	//[tag(flag)]
+	//[tag(flag)]
+	string b;
+	TB tb;
+}
 struct S2 { S1 s; E1 e; date d; guid g; }
 readonly struct S3 { map[string, S2] m; TC[] cs; }
 [opcode(0x11)]
 struct S4 { E2 e; }
-message M1 { 1 -> int32 a; 2 -> string b; 7 -> S1 s; 9 -> map[guid, S2[]] z; }
+message M1 {
+	//[tag(json:"a")]
+	//[tag(xml:"a")]
+	//[tag(json:"dup")]
+	1 -> int32 a;
+	2 -> string b;
+	7 -> S1 s;
+	9 -> map[guid, S2[]] z;
+}
 message M2 { 1 -> M1 m; 2 -> E3 e; 3 -> TB tb; 4 -> U1 u; }
 [opcode("ABCD")]
 message M3 { 5 -> float32 f; 6 -> float64 g; 8 -> bool b; }
